@@ -105,7 +105,38 @@ def _instances_mof():
     return "\n".join(out)
 
 
+RC_SCHEMA = """
+class RA {
+    [Key] uint32 K;
+    [Key] string K2;
+    string S;
+    uint16 T;
+};
+class RB : RA { string U; };
+class RX {
+    [Key] uint32 K;
+    [Key] string K2;
+    string S;
+};
+"""
+
 _TEMPLATE = None
+_RC_TEMPLATE = None
+
+
+def rc_fresh():
+    """Connection with the RepoCore schema (RA, RB:RA, RX) in NS1 and NS2,
+    no instances."""
+    global _RC_TEMPLATE
+    if _RC_TEMPLATE is None:
+        conn = pywbem_mock.FakedWBEMConnection(default_namespace=NS1)
+        for ns in (NS1, NS2):
+            if ns.lower() not in [n.lower() for n in conn.namespaces]:
+                conn.add_namespace(ns)
+            conn.compile_mof_string(QUALIFIERS + RC_SCHEMA, namespace=ns)
+        _RC_TEMPLATE = conn
+    return copy.deepcopy(_RC_TEMPLATE)
+
 
 
 def template():
@@ -121,7 +152,8 @@ def template():
         conn.compile_mof_string(
             'instance of VN3 { k = 1; s = "a"; };\n'
             'instance of VN3 { k = 2; s = "b"; };\n'
-            'instance of VN3 { k = 3; s = "c"; };\n', namespace=NS2)
+            'instance of VN3 { k = 3; s = "c"; };\n'
+            'instance of VX { name = "x1"; n = 1; };\n', namespace=NS2)
         _TEMPLATE = conn
     return _TEMPLATE
 
